@@ -838,6 +838,9 @@ class Executor:
             return k(st, cx.spec_vars[nm])
         if nm == 'True' or nm == 'False':
             return k(st, SV(BOOL, z3.BoolVal(nm == 'True')))
+        if nm in self.reg.opaque_consts:
+            ty = self.tenv.parse(self.reg.opaque_consts[nm])
+            return k(st, SV(ty, z3.Const('CONST_' + nm, T.sort_of(ty))))
         g = self.resolve_global(cx, nm)
         if g is not None and g[0] == 'const':
             sub = Cx(None, spec=cx.spec, depth=cx.depth, root=cx.root, label=cx.label)
@@ -986,15 +989,29 @@ class Executor:
             return self.ev(st, e.values[i], cx, f)
         return go(st, 0)
 
+    def narrow(self, st, test, positive):
+        """flow-sensitive narrowing for `x is None` / `x is not None` tests on a local name"""
+        if isinstance(test, ast.Compare) and len(test.ops) == 1 and isinstance(test.left, ast.Name) \
+                and isinstance(test.comparators[0], ast.Constant) and test.comparators[0].value is None \
+                and isinstance(test.ops[0], (ast.Is, ast.IsNot)) and test.left.id in st.vars:
+            is_none_branch = isinstance(test.ops[0], ast.Is) == positive
+            v = st.vars[test.left.id]
+            if v.ty.kind == 'opt' and not is_none_branch:
+                if T.is_reflike(v.ty.args[0]):
+                    return st.setvar(test.left.id, SV(v.ty.args[0], v.z))
+                return st.setvar(test.left.id, SV(v.ty.args[0], T.sort_of(v.ty).val(v.z)))
+        return st
+
     def ev_IfExp(self, st, e, cx, k):
         def f(st, c):
             tv = self.truth(st, c)
             ab = None
+            st_t, st_f = self.narrow(st, e.test, True), self.narrow(st, e.test, False)
             if cx.spec or (self.is_simple_pure(e.body, cx) and self.is_simple_pure(e.orelse, cx)):
                 nobs = len(self.obs)
                 try:
-                    ab = (self.pure(st.copy(guards=st.guards + (tv,)), e.body, cx),
-                          self.pure(st.copy(guards=st.guards + (z3.Not(tv),)), e.orelse, cx))
+                    ab = (self.pure(st_t.copy(guards=st.guards + (tv,)), e.body, cx),
+                          self.pure(st_f.copy(guards=st.guards + (z3.Not(tv),)), e.orelse, cx))
                 except NotPure:
                     ab = None
                     del self.obs[nobs:]
@@ -1013,9 +1030,9 @@ class Executor:
                     pass
             outs = []
             if self.feasible(st, tv):
-                outs += self.ev(st.assume(tv), e.body, cx, k)
+                outs += self.ev(st_t.assume(tv), e.body, cx, lambda s_, v_: k(s_.copy(vars=dict(s_.vars, **{n_: st.vars[n_] for n_ in st.vars if n_ in s_.vars and s_.vars[n_] is st_t.vars.get(n_) and st_t.vars.get(n_) is not st.vars[n_]})), v_))
             if self.feasible(st, z3.Not(tv)):
-                outs += self.ev(st.assume(z3.Not(tv)), e.orelse, cx, k)
+                outs += self.ev(st_f.assume(z3.Not(tv)), e.orelse, cx, lambda s_, v_: k(s_.copy(vars=dict(s_.vars, **{n_: st.vars[n_] for n_ in st.vars if n_ in s_.vars and s_.vars[n_] is st_f.vars.get(n_) and st_f.vars.get(n_) is not st.vars[n_]})), v_))
             return outs
         return self.ev(st, e.test, cx, f)
 
